@@ -1,6 +1,6 @@
 """C18 — Numbers print, parse and round (structural clauses only)."""
 
-from ..rules import builtins, exceptions, tables, textparse
+from ..rules import builtins, exceptions, operators, tables, textparse
 
 FAMILIES = set("number".split(","))
 PREFIXES = "_make_number_method|_number_to_base|js_round|_global_parse|_create_number_constructor|_create_math_object|_global_is".split("|")
@@ -22,5 +22,6 @@ def run(ctx, rep):
     builtins.rule_number_text_pitfalls(ctx, rep, "C18-R4")
     textparse.rule_ascii_digit_scanners(ctx, rep, "C18-R5", modules=("context", "values"))
     builtins.rule_integral_double_printing(ctx, rep, "C18-R6")
+    operators.rule_host_rounding_special_points(ctx, rep, "C18-R8")
     textparse.rule_script_whitespace(ctx, rep, "C18-R7", only=lambda q: _in_family(q) or q.startswith("values:to_number"))
     rep.undecided += ["the method result tables over the argument grid (values, not shape): a runtime differential, outside static analysis"]
